@@ -41,7 +41,7 @@ CLASS_LISTS = [[], [4], [3, 4], [4, 4], [7], [1], [37], [31], [4, 7, 3], [7, 37]
 SUB_LISTS = [[], [0x40c], [0x40c, 0x40e], [0x401]]      # BSD subclasses only (the scope of the statement)
 
 
-def gen_dump(rnd, big=False, allow_zero_tid=True):
+def gen_dump(rnd, big=False, allow_zero_tid=True, residue_case=False):
     w = World(rnd, big_tids=False, allow_zero_tid=allow_zero_tid)
     g = gen.ProgGen(w, rnd, ntids=3, noise=0.02)
     pids = {1: 11, 2: 12, 3: rnd.choice([13, 0])}
@@ -76,6 +76,11 @@ def gen_dump(rnd, big=False, allow_zero_tid=True):
             items.append([w.perf(1, t, ti=rnd.random() < 0.5, us=True), w.uhdr(t, 3), w.udata(t, fr),
                           w.thd(t, 12, t), w.perf(2, t, us=True)])
     rnd.shuffle(items)
+    if residue_case:      # a sample BEFORE the image that covers its frames is announced, then the announcement, then a sample
+        t = rnd.randrange(1, 4)
+        fr = [rnd.randrange(2, 9) for _ in range(4)]
+        smp = lambda: [w.perf(1, t, ti=False, us=True), w.uhdr(t, 4), w.udata(t, fr), w.perf(2, t, us=True)]
+        items = [smp(), [w.img(t, rnd.randrange(0, 3), rnd.randrange(1, 6))], smp()] + items
     stream = [e for it in items for e in it]
     tmap = [(t, pids[t], names[pids[t]]) for t in rnd.sample([1, 2, 3], rnd.randrange(0, 4))]
     return w, Dump(w, stream, tmap)
@@ -117,7 +122,7 @@ def run(ctx):
     ncli = [0]
     ntext = 0
     for i in range(250 if ctx.quick else 5000):
-        w, dump = gen_dump(rnd, big=not ctx.quick and i % 4 == 0)
+        w, dump = gen_dump(rnd, big=not ctx.quick and i % 4 == 0, residue_case=(i % 10 == 5))
         # the unfiltered run of the code (fresh object): identity -> text
         ref = PyKdebugParser()
         base, btexts = request(w, ref, dump, 'traces')
@@ -126,9 +131,9 @@ def run(ctx):
         reqs = []
         cfg = gen_cfg(rnd)
         same_twice = i % 5 == 0                        # the SAME request repeated on the same object
-        if same_twice and i % 10 == 0:
+        if same_twice and i % 10 in (0, 5):
             cfg = {'ftid': 0, 'fproc': {'kind': 'none'}, 'fclass': [], 'fsub': []}
-        op0 = rnd.choice(['traces', 'callstacks'])
+        op0 = 'callstacks' if i % 10 == 5 else rnd.choice(['traces', 'callstacks'])
         for j in range(2 if same_twice else rnd.choice([1, 2, 2, 3])):
             if j and rnd.random() < 0.4 and not same_twice:
                 cfg = gen_cfg(rnd)                     # the caller changes options between requests
